@@ -21,7 +21,7 @@ def subst_self(k, key):
     """replace ('SELF', a, b..) by key + (a, b, ...)"""
     def fn(t):
         if t and t[0] == SELF:
-            return tuple(key) + t[1:]
+            return tuple(key) + t[2:]
         return None
     return rewrite_key(k, fn)
 
@@ -68,15 +68,20 @@ def instantiate_inv(inv, key):
 
 # --------------------------------------------------------------------------------------------- extraction
 
-def value_equations(I, st, v, selfkey, eqs, bytemap, depth=0):
+def value_equations(I, st, v, selfkey, eqs, bytemap, depth=0, fty=None):
     """relate the abstract value v (being stored into a struct position selfkey) to SELF atoms.
     eqs: list of (Lin == 0); bytemap: list of (origin, offLin, SELForigin) for content rewriting"""
     if depth > 6:
         return
     if isinstance(v, VInt):
         a = ("v", selfkey)
-        lo, hi = static_bounds(v.lin)
-        reg_atom(a, None, None)
+        lo, hi = (None, None)
+        if fty is not None:
+            ft = I.rt(fty)
+            from .facts import INT_TYPES
+            if isinstance(ft, str) and ft in INT_TYPES:
+                lo, hi = INT_TYPES[ft]
+        reg_atom(a, lo, hi)
         eqs.append(Lin.atom(a) - v.lin)
     elif isinstance(v, VBool):
         pass
@@ -85,20 +90,28 @@ def value_equations(I, st, v, selfkey, eqs, bytemap, depth=0):
         la = reg_atom(("len", so), 0, I64MAX)
         eqs.append(Lin.atom(la) - v.len)
         bytemap.append((v.origin, v.off, so, v.len))
+        if v.origin[0] == "place" and v.off.is_const():
+            arr = I.load(st, ("place", v.origin[1], v.origin[2], v.origin[3]))
+            if isinstance(arr, VArray) and arr.elems is not None:
+                for k, e in enumerate(arr.elems):
+                    if k - v.off.c >= 0 and isinstance(e, VInt):
+                        a = e.lin.single_atom()
+                        if a is not None:
+                            bytemap.append(("ATOM", a, ("byte", so, k - v.off.c), None))
     elif isinstance(v, VVec):
         la = reg_atom(("veclen", selfkey), 0, I64MAX)
         eqs.append(Lin.atom(la) - v.len)
     elif isinstance(v, VAdt):
-        if v.fields is not None and I.F.adts.get(v.path, {}).get("kind") == "struct":
+        adt = I.F.adts.get(v.path, {})
+        if v.fields is not None and adt.get("kind") == "struct":
+            ftys = [f["ty"] for f in adt["variants"][0]["fields"]]
             for i, f in enumerate(v.fields):
-                value_equations(I, st, f, selfkey + (i,), eqs, bytemap, depth + 1)
+                value_equations(I, st, f, selfkey + (i,), eqs, bytemap, depth + 1, ftys[i] if i < len(ftys) else None)
     elif isinstance(v, VTuple):
+        tt = I.rt(fty) if fty is not None else None
         for i, f in enumerate(v.fields):
-            value_equations(I, st, f, selfkey + (i,), eqs, bytemap, depth + 1)
-    elif isinstance(v, VArray):
-        if v.elems is not None and len(v.elems) <= 64:
-            for i, f in enumerate(v.elems):
-                value_equations(I, st, f, selfkey + (i,), eqs, bytemap, depth + 1)
+            ft = tt["of"][i] if isinstance(tt, dict) and tt.get("k") == "tuple" and i < len(tt["of"]) else None
+            value_equations(I, st, f, selfkey + (i,), eqs, bytemap, depth + 1, ft)
 
 
 def is_self_atom(a):
@@ -196,16 +209,52 @@ def project(cons, keep_pred, max_cons=400):
     return cur
 
 
-def extract_disjunct(I, st, value, root_key=(SELF,)):
+def extract_disjuncts(I, st, value, root_key=None, drop_fields=()):
+    if root_key is None:
+        root_key = (SELF, value.path)
+    """like extract_disjunct but case-splits the disjunctive facts of the state (bounded)"""
+    if not st.disj:
+        return [extract_disjunct(I, st, value, root_key, drop_fields)]
+    combos = [[]]
+    for d in st.disj:
+        if len(combos) * len(d) > 16:
+            continue
+        combos = [c + list(conj) for c in combos for conj in d]
+    out = []
+    for extra in combos:
+        sub = st.fork_facts()
+        sub.disj = []
+        try:
+            for l in extra:
+                sub.add_ge0(l)
+        except Infeasible:
+            continue
+        if not sub.feasible():
+            continue
+        out.append(extract_disjunct(I, sub, value, root_key, drop_fields))
+    return out
+
+
+def extract_disjunct(I, st, value, root_key=None, drop_fields=()):
+    if root_key is None:
+        root_key = (SELF, value.path)
     """project the path facts of st onto the SELF atoms of `value` (a struct value being constructed)"""
     eqs, bytemap = [], []
     value_equations(I, st, value, root_key, eqs, bytemap)
     # content rewriting: byte(origin, off+k) -> byte(SELForigin, k) when region covers it
     bm = {}
+    atom_map = {}
     for origin, off, so, ln in bytemap:
+        if origin == "ATOM":
+            if off not in atom_map:
+                atom_map[off] = so
+                reg_atom(so, 0, 255)
+            continue
         bm.setdefault(origin, []).append((off, so, ln))
 
     def rw_tuple(t):
+        if t in atom_map:
+            return atom_map[t]
         if t and t[0] == "byte" and len(t) == 3 and t[1] in bm:
             pos = lin_from_key(t[2])
             for off, so, ln in bm[t[1]]:
@@ -267,9 +316,18 @@ def extract_disjunct(I, st, value, root_key=(SELF,)):
                 cons.append(({a: 1}, -lo))
             if hi is not None:
                 cons.append(({a: -1}, hi))
-    res = project(cons, is_self_atom)
+    def keep(a):
+        if not is_self_atom(a):
+            return False
+        if drop_fields:
+            return not mentions_field(a, drop_fields)
+        return True
+    res = project(cons, keep)
     out = []
+    BIG = 1 << 40
     for t, c in res:
+        if abs(c) > BIG or any(abs(v) > BIG for v in t.values()):
+            continue
         l = Lin(dict(t), c)
         lo, hi = static_bounds(l)
         if lo is not None and lo >= 0:
@@ -295,7 +353,7 @@ def conj_entails(a, b):
     return all(entails_ge0(a, l) for l in b)
 
 
-def merge_disjuncts(ds, cap=8):
+def merge_disjuncts(ds, cap=12):
     """remove subsumed disjuncts; join if too many"""
     out = []
     for d in ds:
@@ -312,3 +370,12 @@ def merge_disjuncts(ds, cap=8):
         joined = [l for l in cands if all(entails_ge0(d, l) for d in out)]
         out = [simplify_conj(joined)]
     return out
+
+
+def mentions_field(a, fields):
+    """does atom a mention ('SELF', i, ...) with i in fields"""
+    if isinstance(a, tuple):
+        if a and a[0] == SELF and len(a) > 2 and a[2] in fields:
+            return True
+        return any(mentions_field(x, fields) for x in a)
+    return False
